@@ -208,7 +208,7 @@ theorem gather_range_take (l : List Nat) (n : Nat) (hn : n ≤ l.length) : gathe
   · simp [hn]
   · intro k h1 h2
     simp only [length_gather, List.length_range] at h1
-    simp [gather, List.getD_eq_getElem?_getD, h1, Nat.lt_of_lt_of_le h1 hn]
+    simp [gather, List.getD_eq_getElem?_getD, Nat.lt_of_lt_of_le h1 hn]
 
 theorem gather_range'_drop (l : List Nat) (n : Nat) (hn : n ≤ l.length) :
     gather l (List.range' n (l.length - n)) = l.drop n := by
